@@ -113,6 +113,12 @@ def run_case(case: dict) -> dict:
             # more covered files than the machine has processors: every one of them is in the report under every pool size
             (root / "bulk").mkdir(exist_ok=True)
             (root / "bulk" / f"f{k:03}.py").write_text(f"# SPDX-FileCopyrightText: {2000 + k % 20} Bulk Holder {k % 3}\n# SPDX-License-Identifier: 0BSD\n\nk = {k}\n")
+        if case.get("ignored_neighbours"):
+            # several neighbouring directories that are skipped for a reason other than their name (Meson subprojects):
+            # none of them is walked, in whatever order the file system lists them
+            for sp in ("alpha", "beta", "gamma", "delta"):
+                (root / "subprojects" / sp).mkdir(parents=True, exist_ok=True)
+                (root / "subprojects" / sp / f"{sp}.c").write_text(f"int {sp};\n")
         if case.get("dup_license"):
             # two texts for one identifier: the tool refuses such a project - under every enumeration order alike
             (root / "LICENSES").mkdir(exist_ok=True)
@@ -290,9 +296,9 @@ def run(ctx: core.Ctx) -> int:
                       "home": [".", "subprojects", "LICENSES/x", ".", "my dir/.reuse"][i % 5],
                       "rootname": ["root", "pr[1]oj", "subprojects", "LICENSES", "root", ".reuse", "COPYING", "x.license", "what?*"][i % 9],
                       "copyname": [None, "subprojects", "other", "LICENSES", ".git", "a.spdx", "REUSE.toml", "we[i]rd"][i % 8],
-                      "dup_license": i % 6 == 5, "git_submodule": i % 4 == 3,
+                      "dup_license": i % 6 == 5, "git_submodule": i % 4 == 3, "ignored_neighbours": i % 3 == 1,
                       "bulk": [0, 2 * (os.cpu_count() or 4) + 3, 0, 0, (os.cpu_count() or 4) + 1, 0, 0][i % 7],
-                      "scandir_seeds": 2 if q else 4,
+                      "scandir_seeds": 3 if q else 6,
                       "scheds": rnd.sample(scheds, min(len(scheds), 3 if q else 8)),
                       "real_workers": [1, 2, 16] if q else [1, 2, 3, 4, 8, 16],
                       "hash_seeds": ([1, 2, 3, 4] if i % 4 == 0 else []) if q else [1, 2, 3, 4, 5, 6]})
